@@ -132,6 +132,7 @@ def plans(prop, tier):
             for items in ((0, 2) if tier == 'quick' else (0, 1, 2, 3, 5)):
                 P.append((k, True, 'ret', items, ('pause',) + (('sigkill',) if k != 'thread' else ())))
             P.append((k, True, 'exc', 4, ()))
+            P.append((k, True, 'exc', 4, (), 'nowait'))        # the worker dies on its own; a consumer only reads the stream
             P.append((k, True, 'ret', 2, ('pause', 'sigkill') if k != 'thread' else ('pause',), 'blocked'))
         # the parent-side forwarding thread paused at its line events while the backend is SIGKILLed
         P.append(('remote', True, 'ret', 2, ('fpause',), 'blocked'))
